@@ -112,3 +112,31 @@ fcontract('IfThenElse', '_sizeof', [
          ensures=lambda pre, post: [('size-is-the-size-of-the-branch-the-condition-selects', size_is(post, _ite_size(pre).val), ('C05',))], rkind=rk_dyn),
     Case('no-size', 'raise', lambda pre: t.not_(_ite_size(pre).ok)),
 ], tags=('C05',))
+
+
+# ================================================================================================ the remaining plain delegations and fixed answers
+# OffsettedEnd._build / NullStripped._build build the inner construct and nothing else; ProcessXor / ProcessRotateLeft have the size of
+# what they wrap; the constructs whose size depends on the data always answer SizeofError.
+for _cls in ('OffsettedEnd', 'NullStripped'):
+    fcontract(_cls, '_build', [
+        Case('ok', 'return', lambda pre: Sub(pre, 'subcon', obj=pre['obj'].t, kind='build').ok, ensures=_deleg_build('subcon'), rkind=rk_dyn, modifies=['stream']),
+        Case('inner-fails', 'raise', lambda pre: t.not_(Sub(pre, 'subcon', obj=pre['obj'].t, kind='build').ok), ensures=generic_raise, modifies=['stream']),
+    ], tags=T + ('C08',))
+for _cls in ('ProcessXor', 'ProcessRotateLeft'):
+    fcontract(_cls, '_sizeof', [
+        Case('ok', 'return', lambda pre: Sub(pre, 'subcon', kind='sizeof').ok,
+             ensures=lambda pre, post: [('size-is-the-inner-size', size_is(post, Sub(pre, 'subcon', kind='sizeof').val), ('C05', 'C15'))], rkind=rk_dyn),
+        Case('no-size', 'raise', lambda pre: t.not_(Sub(pre, 'subcon', kind='sizeof').ok)),
+    ], tags=('C05', 'C15'))
+for _cls in ('GreedyRange', 'RepeatUntil', 'Union', 'Tunnel', 'OffsettedEnd', 'NullStripped'):
+    fcontract(_cls, '_sizeof', [
+        Case('never-sized', 'raise', lambda pre: t.TRUE, exc='SizeofError', path='path'),
+    ], tags=('C05',))
+fcontract('RestreamData', '_build', [
+    Case('ok', 'return', lambda pre: t.TRUE, rkind=rk_dyn, modifies=['stream'],
+         ensures=lambda pre, post: [('writes-nothing', t.and_(t.eq(post.obj('stream').pos, S_(pre).pos), buffer_same(pre, post)), ('C05', 'C03')),
+                                    ('returns-the-value-unchanged', result_is(post, pre['obj'].t), ('C03',))]),
+], tags=('C05', 'C03'))
+fcontract('RestreamData', '_sizeof', [
+    Case('ok', 'return', lambda pre: t.TRUE, rkind=rk_dyn, ensures=lambda pre, post: [('size-is-zero', size_is(post, t.ZERO), ('C05',))]),
+], tags=('C05',))
